@@ -79,6 +79,7 @@ def seg_unit(v, seg, res, tier, only_leaf_children=False):
     def viol(key, what):
         res.violation(key, what, point, 1)
 
+    leaf_retyped = [only_leaf_children]
     for idx, fr in tables.field_rows(v, seg):
         if seg == 'MSH' and idx <= 2:
             continue
@@ -166,6 +167,11 @@ def seg_unit(v, seg, res, tier, only_leaf_children=False):
         # the only child of a field of a base datatype: named after the datatype, or by position <field>_1
         if fr.kind == 'leaf' and tables.is_base(v, fr.datatype) and fr.card[1] != 0:
             leaf_field_child(res, v, seg, idx, fr, new, viol, lit)
+            if not leaf_retyped[0]:
+                # once per segment: a base-datatype field given a complex datatype (TOLERANT allows it) is addressed like any
+                # field of that datatype: by name, long name and position, and it encodes what was written
+                leaf_retyped[0] = True
+                retyped_leaf_field(res, v, seg, fr, viol)
         # components and subcomponents of this field
         if fr.kind != 'leaf':
             comp_paths(res, v, seg, idx, fr, new, viol)
@@ -220,6 +226,41 @@ def leaf_field_child(res, v, seg, idx, fr, new, viol, lit):
                 viol('%s|%s|%s|leaf-child|%s|delete' % (v, seg, dt, wm), '%s (v%s): after deleting its only child the field still encodes %r' % (fr.name, v, f.to_er7()))
         except Exception as e:
             viol('%s|%s|%s|leaf-child|delete|%s' % (v, seg, dt, exc_class(e)), 'deleting the %s child of %s (v%s) raises %s: %s' % (dt, fr.name, v, exc_class(e), e))
+
+
+def retyped_leaf_field(res, v, seg, fr, viol):
+    from hl7apy.core import Field
+    structs = libs()[v].DATATYPES_STRUCTS
+    cands = [d for d in ('CE', 'CX', 'HD', 'CQ') if d in structs and tables.datatype_rows(v, d)[0].kind == 'leaf'
+             and tables.is_base(v, tables.datatype_rows(v, d)[0].datatype)]
+    if not cands:
+        return
+    ndt = cands[0]
+    row0 = tables.datatype_rows(v, ndt)[0]
+    lit = tables.literal(row0.datatype, v)
+    res.evaluations += 1
+    res.enumerated += 1
+    res.states += 1
+    res.transitions += 4
+    res.nontrivial += 1
+    try:
+        f = Field(fr.name, datatype=ndt, version=v)
+        setattr(f, '%s_1' % fr.name.lower(), lit)
+        named = getattr(f, '%s_1' % ndt)
+        ok = len(named) == 1 and named[0] is f.children[0] and f.to_er7() == lit
+        ln0 = row0.long_name
+        if ok and ln0 and [r_.long_name for r_ in tables.datatype_rows(v, ndt)].count(ln0) == 1 and ln0.upper() not in reserved('Field'):
+            ok = getattr(f, ln0.lower())[0] is named[0]
+    except Exception as x:
+        viol('retyped-leaf-field|%s' % exc_class(x), '%s (v%s): %s of base datatype %s created with datatype %s, %s_1 written: %s: %s'
+             % (seg, v, fr.name, fr.datatype, ndt, fr.name, exc_class(x), x))
+        return
+    res.validated += 1
+    if not ok:
+        viol('retyped-leaf-field|mismatch', '%s (v%s): %s of base datatype %s created with datatype %s: name, long name and position do not designate '
+             'one child, or the field encodes %r instead of %r' % (seg, v, fr.name, fr.datatype, ndt, f.to_er7(), lit))
+    else:
+        res.classes['retyped-same-child'] += 1
 
 
 def comp_paths(res, v, seg, idx, fr, new, viol):
